@@ -1431,3 +1431,38 @@ VARIANTS = [
     V("plain-int-renamed-message", (I, PI_OLD, PI_V1)),
 ]
 _split(VARIANTS)
+
+# ---------------------------------------------------------------------
+# datetime-range sites (R7.1): moving a datetime that a parser built from client text can leave datetime.min..max.
+# 'Fri, 31 Dec 9999 23:59:59 -0100' parses; astimezone(utc) / + timedelta / - utcoffset then raise OverflowError, and
+# replace(year=..) re-validates Feb 29 (ValueError).  Only a handler discharges such a site.
+DT_TAIL = "    if dt.tzinfo is None:\n        return dt.replace(tzinfo=timezone.utc)\n\n    return dt\n"
+DT_IMPORTS = (Q, "from datetime import datetime\n", "from datetime import datetime\nfrom datetime import timedelta\nfrom datetime import timezone\n")
+DT_PROP_AT = "    @cached_property\n    def if_modified_since(self) -> datetime | None:\n"
+
+
+def _prop(body: str):
+    return (Q, DT_PROP_AT, body + "\n" + DT_PROP_AT)
+
+
+IFR_OLD = "    if date is not None:\n        return ds.IfRange(date=date)\n"
+DT_VARIANTS = [
+    # mutants, one spelling each
+    V("M:date-utc-helper-after-try", (H, DT_TAIL, "    return _dt_as_utc(dt)\n"), expect="R7.1"),
+    V("M:date-astimezone-inline", (H, DT_TAIL, "    if dt.tzinfo is None:\n        return dt.replace(tzinfo=timezone.utc)\n\n    return dt.astimezone(timezone.utc)\n"), expect="R7.1"),
+    V("M:date-minus-utcoffset", (H, DT_TAIL, "    shift = dt.utcoffset()\n\n    if shift is None:\n        return dt.replace(tzinfo=timezone.utc)\n\n    return (dt - shift).replace(tzinfo=timezone.utc)\n"), expect="R7.1"),
+    V("M:if-range-grace-second-augassign", (H, IFR_OLD, "    if date is not None:\n        date += timedelta(seconds=1)\n        return ds.IfRange(date=date)\n"), expect="R7.1"),
+    V("M:date-clamped-to-epoch-year", (H, DT_TAIL, "    if dt.year < 1970:\n        dt = dt.replace(year=1970)\n\n" + DT_TAIL), expect="R7.1"),
+    V("M:date-naive-timestamp-test", (H, DT_TAIL, "    if dt.timestamp() < 0:\n        return None\n\n" + DT_TAIL), expect="R7.1"),
+    V("M:request-date-utc-property-unhandled", DT_IMPORTS, _prop("    @property\n    def date_utc(self) -> datetime | None:\n        sent = self.date\n        return sent.astimezone(timezone.utc) if sent is not None else None\n"), expect="R7.1"),
+    V("M:request-expiry-property-plus-delta", DT_IMPORTS, _prop("    @property\n    def revalidate_after(self) -> datetime | None:\n        since = self.if_modified_since\n\n        if since is None:\n            return None\n\n        return timedelta(minutes=5) + since\n"), expect="R7.1"),
+    V("M:request-mirrored-date-tuple-unpack", DT_IMPORTS, _prop("    @property\n    def mirrored_date(self) -> datetime | None:\n        since, sent = self.if_modified_since, self.date\n\n        if since is None or sent is None:\n            return None\n\n        return since + (since - sent)\n"), expect="R7.1"),
+    # neutral
+    V("date-tail-conditional-expression", (H, DT_TAIL, "    return dt if dt.tzinfo is not None else dt.replace(tzinfo=timezone.utc)\n")),
+    V("date-tail-assume-utc-helper", (H, DT_TAIL, "    return _assume_utc(dt)\n"), (H, "def parse_date(value: str | None) -> datetime | None:\n", "def _assume_utc(moment: datetime) -> datetime:\n    if moment.utcoffset() is None and moment.tzinfo is None:\n        moment = moment.replace(tzinfo=timezone.utc)\n\n    return moment\n\n\ndef parse_date(value: str | None) -> datetime | None:\n")),
+    V("request-date-utc-property-handled", DT_IMPORTS, _prop("    @property\n    def date_utc(self) -> datetime | None:\n        sent = self.date\n\n        if sent is None:\n            return None\n\n        try:\n            return sent.astimezone(timezone.utc)\n        except OverflowError:\n            return None\n")),
+    V("request-date-age-property-difference", DT_IMPORTS, _prop("    @property\n    def date_age(self) -> timedelta | None:\n        sent = self.date\n\n        if sent is None:\n            return None\n\n        return (datetime.now(timezone.utc) + timedelta(seconds=1)) - sent\n")),
+    V("request-date-epoch-property-aware-timestamp", DT_IMPORTS, _prop("    @property\n    def date_epoch(self) -> float | None:\n        sent = self.if_modified_since\n        return sent.replace(microsecond=0).timestamp() if sent is not None else None\n")),
+    V("request-since-minus-date-property", DT_IMPORTS, _prop("    @property\n    def since_before_date(self) -> timedelta | None:\n        since = self.if_modified_since\n        sent = self.date\n\n        if since is None or sent is None:\n            return None\n\n        return since - sent\n")),
+]
+_split(DT_VARIANTS)
